@@ -20,18 +20,25 @@ ASSUMPTIONS = ["pointer arguments either point into the contents of a live SBuf 
                "objects are not used after being moved from; single thread",
                "glibc C locale for tolower/toupper/isupper/islower"]
 MANIFEST = {
-    "text": "partial: for every history of the 40 modelled SBuf operations over any number of objects sharing blobs, from the initial state and "
-            "under any allocation policy, the heap model (MemBlob heap + off/len views, copy-on-write, Locker, in-place append) keeps its "
-            "invariant (views inside the used area, used area inside the capacity, lock counts = number of referrers), never reads or writes "
-            "outside a blob's used area/capacity, and every object's bytes and every result equal those of the same history on independent "
-            "byte lists (theorem run_refines), with over-limit requests throwing and leaving the values unchanged -- EXCEPT in four argument "
-            "regions where the real code violates the property (proved as counterexamples, excluded by the explicit hypothesis Safe): "
-            "chop/substr with pos+n wrapping uint32, rawAppendStart(0)/rawAppendFinish(0) on a non-tail view, appendf/Printf with an "
-            "empty format, rawAppendStart(n) with length+n >= 2^32. The real SBuf.cc/MemBlob.cc run under ASan/UBSan against the model "
-            "(contents, results, off_/len_/size/capacity/LockCount after every call) and against a python reference on independent values.",
-    "note": "trusted: Lean kernel, translator of maxSize/npos/size classes, harness, python reference; modelled not verified: RefCount, memAllocBuf, "
-            "vsnprintf, libc memory primitives; strings longer than ~70 KB are exercised only at the limit checks (no 256 MB contents)",
-    "technique": "Lean 4 refinement proof (heap model -> independent values, invariant + frame lemmas) + ASan differential run with internals",
+    "text": "partial: for every history of the 36 modelled SBuf operations (copy, assign from SBuf / foreign memory / own raw area, the append "
+            "family incl. self-append, push_back, clear, chop, substr, consume, trim incl. trim by itself, setAt, toLower/toUpper, c_str, "
+            "reserveSpace/Capacity/reserve, rawAppendStart/Finish, 15 searches and comparisons) over any number of objects sharing blobs, "
+            "from the initial state and under any allocation policy (n <= alloc n <= maxSize; proved for the exact and the size-class policy), "
+            "the heap model of SBuf.cc/MemBlob.cc (blob heap + off/len views, LockCount, copy-on-write incl. in-place shift, Locker, in-place "
+            "append) never reads or writes outside the used area / capacity of a blob, keeps its invariant, and every object's bytes and every "
+            "result incl. `throw` equal those of the same history on independent byte lists (theorem run_refines_partial); over-limit requests "
+            "throw and leave all values unchanged. EXCLUDED by the explicit hypothesis Safe: four argument regions where the real code "
+            "violates the property (each proved as a counterexample of the model and confirmed on the real code under ASan: chop/substr with "
+            "pos+n wrapping uint32; rawAppendStart(0)+rawAppendFinish(0) on a non-tail view; appendf/Printf with an empty format; "
+            "rawAppendStart(n) with length+n >= 2^32-1), the printf family (differential only), assign() of a foreign area > maxSize. "
+            "The real code runs under ASan/UBSan against the model (contents, results, off_/len_/size/capacity/LockCount after every call: "
+            "0 divergences) and against a python reference on independent values (std::string semantics for every search/compare).",
+    "note": "trusted: Lean kernel, translator (maxSize/npos/size classes/5 code-shape flags), harness, python reference; modelled not verified: "
+            "RefCount, memAllocBuf, vsnprintf, libc memory primitives, glibc tolower on negative char; searches/comparisons are proved to depend "
+            "on the bytes only (their std::string meaning is checked by the python reference, three comparison deviations are known findings); "
+            "contents beyond ~70 KB only at the limit checks (one 256 MB reservation per run)",
+    "technique": "Lean 4 refinement proof (heap model -> independent values; invariant, frame and exclusivity lemmas, loop inductions) + "
+                 "ASan differential run comparing internals + independent reference",
 }
 
 NPOS = 0xffffffff
